@@ -3,3 +3,4 @@ import MLModel.Vec
 import MLModel.Distance
 import MLModel.Classify
 import MLModel.Calibrate
+import MLModel.Params
